@@ -479,6 +479,10 @@ func decodeOffsetByteReader(cmd byte, delta io.ByteReader) (uint, error) {
 		if (cmd & o.mask) != 0 {
 			next, err := delta.ReadByte()
 			if err != nil {
+				if err == io.EOF {
+					// The delta ended inside the copy command.
+					return 0, ErrInvalidDelta
+				}
 				return 0, err
 			}
 			offset |= uint(next) << o.shift
@@ -509,6 +513,10 @@ func decodeSizeByteReader(cmd byte, delta io.ByteReader) (uint, error) {
 		if (cmd & s.mask) != 0 {
 			next, err := delta.ReadByte()
 			if err != nil {
+				if err == io.EOF {
+					// The delta ended inside the copy command.
+					return 0, ErrInvalidDelta
+				}
 				return 0, err
 			}
 			sz |= uint(next) << s.shift
